@@ -313,7 +313,7 @@ def _export_syntactic_behaviours_1_0(
     sbmap: _SBMap,
 ) -> list[lmf.SyntacticBehaviour]:
     frames: list[lmf.SyntacticBehaviour] = []
-    sense_ids = {s['id'] for s in entry.get('senses', [])}
+    sense_ids = [s['id'] for s in entry.get('senses', [])]
     sbs: dict[str, set[str]] = {}
     for sid in sense_ids:
         for _, subcat_frame in sbmap.get(sid, []):
